@@ -90,6 +90,9 @@ func main() {
 		}
 		check(t, "predefs")
 	}
+	if !r.Quick() {
+		rx.DeepSpace(check)
+	}
 	r.Assume("reference semantics: classes as tabulated in docs/5-definitions.md over 7-bit ASCII; '.', negated classes and negated brackets complement within 0x00-0x7F; lazy quantifiers denote the same language; '^' and '$' are not part of the compared language")
 	r.Assume("alphabet of every product exploration: U+0001..U+007F, U+00E9, U+0100, U+4E00, U+1F600 and the neighbours of every non-ASCII range boundary in the pattern; NUL excluded as the property states")
 	r.Finish()
